@@ -558,6 +558,35 @@ func runC07Cells(c *Ctx) error {
 				}
 			}
 			res.Dist("cell:ok")
+			// the same run with the context's debug settings on (every rejection is explained through reject)
+			if c.Thorough || (i+len(rs))%3 == 0 {
+				var out []string
+				c07GroupName := "r"
+				if gs := e.LoadedGroups(); len(gs) > 0 {
+					c07GroupName = gs[0].Name
+				}
+				dopts := opts
+				dopts.Debug, dopts.DebugImports, dopts.DebugOut = c07GroupName, true, &out
+				drs, dpk, dframe, derr := hx.Run(e, t, dopts)
+				in3 := map[string]interface{}{"Debug": c07GroupName, "DebugImports": true}
+				for k, v := range in2 {
+					in3[k] = v
+				}
+				switch {
+				case derr != nil:
+					res.Errorf("c07: Run with debug settings returned an error: %v", derr)
+				case dpk != "":
+					res.Violate(hx.Violation{Signature: "run:" + dpk + "@" + dframe + ":debug-settings", What: "Run panics when RunContext.Debug / DebugPrint / DebugImports are set", Input: in3, Impl: dpk + " at " + dframe, Spec: "no panic"})
+					res.Dist("cell:debug-run:PANIC")
+				case c07ReportsKey(drs) != c07ReportsKey(rs):
+					res.Violate(hx.Violation{Signature: "run:debug-settings-change-the-reports@" + cl.shape.name, What: "the reports differ when the debug settings are on", Input: in3, Impl: c07ReportsKey(drs), Spec: c07ReportsKey(rs)})
+				default:
+					res.Dist("cell:debug-run:ok")
+					if c07Explained(out) {
+						res.Dist("cell:debug-run:explained-a-rejection")
+					}
+				}
+			}
 		}
 		// the same file when it cannot be read back from disk (an in-memory overlay, a generated file): texts then come
 		// from go/printer; the run must not fail there either
@@ -593,6 +622,7 @@ func runC07Cells(c *Ctx) error {
 // and $* captures under Contains() filters whose sub-patterns need node slices).  VERIF_C07_ONLY=cells|top|state runs
 // one of them (debugging aid; the check never sets it).
 func runC07(c *Ctx) error {
+	c07Thorough = c.Thorough
 	only := os.Getenv("VERIF_C07_ONLY")
 	if only == "" || only == "cells" {
 		if err := runC07Cells(c); err != nil {
